@@ -67,6 +67,7 @@ STATIC_FINDINGS = {
 }
 
 FALSE_ALARMS = [
+    "C10 (thorough tier, `Signal v3 = i0 > v2 : v1` with all three on one signal type): the optimised build was also compared with the reference semantics, and a deviation that the unoptimised build shares (here the listed three-colour finding of C01) was reported as a C10 violation. The property compares the two builds; a deviation common to both is now recorded as `common_deviation` and left to C01 / C02 (same treatment as C13).",
     "C06 (new stratum entity_controlled_and_read): the harness gave contents to every belt / inserter of a case, also to plain sinks that do not read their contents; and it let the condition's operand have the type of an item the entity holds - a single-connector entity always reads its own output, which no wiring can prevent. Contents are now emitted only for entities the program reads through `.output`, and the operand type is never one the entity holds.",
     "C08 / C18 thorough: `biggen.mixed_program` crashed with `type pool exhausted` for large programs (a check that exits non-zero is broken): the memory loop now restarts the pool like the statement loop did.",
     "C11 (function_argument in a loop): the result was declared inside the loop body and is not observable by name; the loop variant now drives a lamp.",
